@@ -85,11 +85,32 @@ def str_list(v, what):
     return v
 
 
+FLT = r"([0-9][0-9_]*(?:\.[0-9_]*)?(?:[eE][+-]?[0-9_]+)?)(?:_?f(?:32|64))?"
+INT = r"(u32::MAX|0x[0-9a-fA-F_]+|[0-9][0-9_]*)(?:_?u(?:8|16|32|64|size))?"
+
+
+def parse_int(tok):
+    return U32_MAX if tok == "u32::MAX" else int(tok.replace("_", ""), 0)
+
+
+def src_unreadable(what):
+    """a constant of the Rust source is not spelled in a way this translator understands: that is not a finding
+    about the code; keep the committed output (the correspondence run is then the only tie) and say so"""
+    if os.path.exists(OUT):
+        print("unchanged unreadable:" + re.sub(r"\s+", "_", what))
+        sys.exit(0)
+    fail(f"cannot find {what} and there is no committed output")
+
+
 def scrape(path, pattern, what):
-    src = open(os.path.join(REPO, path)).read()
+    try:
+        src = open(os.path.join(REPO, path)).read()
+    except OSError:
+        src_unreadable(what)
+    src = re.sub(r"//[^\n]*", "", re.sub(r"/\*.*?\*/", "", src, flags=re.S))
     m = re.search(pattern, src, re.S)
     if not m:
-        fail(f"cannot find {what} in {path}")
+        src_unreadable(what)
     return m
 
 
@@ -97,19 +118,19 @@ def scrape(path, pattern, what):
 uf_rs = "src/convert/units_file.rs"
 prefix_ratio = {}
 for p in SIPREFIX:
-    m = scrape(uf_rs, r"SIPrefix::" + p.capitalize() + r" => ([0-9eE.+\-_]+),", f"ratio of SI prefix {p}")
+    m = scrape(uf_rs, r"SIPrefix::" + p.capitalize() + r"\s*=>\s*" + FLT + r"\s*,", f"ratio of SI prefix {p}")
     prefix_ratio[p] = Dec(m.group(1))
 m = scrape("src/convert/mod.rs",
-           r"impl Default for FractionsConfig \{.*?enabled: (true|false),\s*accuracy: ([0-9eE.+\-_]+),\s*max_denominator: (\d+),\s*max_whole: (u32::MAX|\d+),",
+           r"impl Default for FractionsConfig \{.*?enabled:\s*(true|false),\s*accuracy:\s*" + FLT + r",\s*max_denominator:\s*" + INT + r",\s*max_whole:\s*" + INT + r",",
            "FractionsConfig::default")
 DEF_ENABLED = m.group(1) == "true"
 DEF_ACC = Dec(m.group(2))
-DEF_MAX_DEN = int(m.group(3))
-DEF_MAX_WHOLE = U32_MAX if m.group(4) == "u32::MAX" else int(m.group(4))
-m = scrape(uf_rs, r"unwrap_or\(d\.accuracy\)\.clamp\(([0-9.]+), ([0-9.]+)\)", "accuracy clamp")
-ACC_LO, ACC_HI = float(m.group(1)), float(m.group(2))
-m = scrape(uf_rs, r"unwrap_or\(d\.max_denominator\)\s*\.clamp\((\d+), (\d+)\)", "max_denominator clamp")
-DEN_LO, DEN_HI = int(m.group(1)), int(m.group(2))
+DEF_MAX_DEN = parse_int(m.group(3))
+DEF_MAX_WHOLE = parse_int(m.group(4))
+m = scrape(uf_rs, r"unwrap_or\(d\.accuracy\)\s*\.clamp\(\s*" + FLT + r"\s*,\s*" + FLT + r"\s*\)", "accuracy clamp")
+ACC_LO, ACC_HI = float(m.group(1).replace("_", "")), float(m.group(2).replace("_", ""))
+m = scrape(uf_rs, r"unwrap_or\(d\.max_denominator\)\s*\.clamp\(\s*" + INT + r"\s*,\s*" + INT + r"\s*\)", "max_denominator clamp")
+DEN_LO, DEN_HI = parse_int(m.group(1)), parse_int(m.group(2))
 
 # ---- the file
 try:
